@@ -53,3 +53,18 @@ m("C19", "proof",
   "distinct below 2^bits (C19_sequence_numbers_distinct).",
   "Lean 4 theorems (forward simulation of put_request/_transaction_start) + differential correspondence",
   "§6 C19")
+m("C17", "translation_validation",
+  "operation sequences (create, delete, rename, replace, mkdir, rmdir, truncate, write at offset, read, size, "
+  "exists, isdir) over a universe of 8 nested names, offsets 0..12, payloads 0..6 bytes: random sequences of "
+  "2..13 ops plus ALL sequences of depth 2 (quick) / 3 (thorough) over a 26-op alphabet, on NativeFilestore in "
+  "a fresh sandbox directory; whole-tree snapshot compared with the reference model after every op",
+  "The reference model is Model/Fs.lean. Props/C17.lean proves its laws for every tree/path/payload/offset: "
+  "finite map with strictly ascending unique paths preserved by every operation (C17_wf_preserved); refused "
+  "operations return the unchanged tree, raising ones no tree (C17_refused_unchanged, C17_raising_operations); "
+  "success implies the effect and nothing else (C17_create_file, C17_delete_file, C17_write_data); written "
+  "data is read back, other bytes untouched, gaps zero-filled, empty writes no-ops (C17_write_read, "
+  "C17_write_frame, C17_write_frame_after, C17_write_gap_zero, C17_write_empty). Implementation = model is "
+  "checked by differential execution (it cannot be proved: the other half of the implementation is the OS).",
+  "Lean 4 laws of the reference model + differential execution against the host file system", "§6 C17",
+  ["list_directory not modelled (shells out to ls)", "file_size of a directory is host dependent: not compared",
+   "POSIX host semantics (tmpfs/ext4 under /tmp)"])
